@@ -300,8 +300,8 @@ def exec (T : CrdtOps σ ω) (m : MState σ ω) (toks : List String) : MState σ
           if same = "panic" then (m, "panic") else
           let m' := m.setRep r s'
           -- C19 (`*_roundtrip`): the restored value equals the original
-          (m', withSpec ("json=" ++ showErr text ++ " same=" ++ same ++ " " ++ T.obs s') "same=true")
-        | (text, none) => (m, "json=" ++ showErr text ++ " norestore")
+          (m', withSpec ("json=" ++ showErr text ++ " restore=ok same=" ++ same ++ " " ++ T.obs s') "restore=ok same=true")
+        | (text, none) => (m, "json=" ++ showErr text ++ " restore=fail norestore")
       | _, _ => (m, "nopersist")
   | ["PO", name] =>
     match lookup name m.ops with
@@ -313,8 +313,8 @@ def exec (T : CrdtOps σ ω) (m : MState σ ω) (toks : List String) : MState σ
         match p op with
         | (text, some op') =>
           -- C19: the restored op is the original op
-          ({ m with ops := setKey name op' m.ops }, withSpec ("json=" ++ showErr text ++ " op=" ++ T.showOp op') ("op=" ++ T.showOp op))
-        | (text, none) => (m, "json=" ++ showErr text ++ " norestore")
+          ({ m with ops := setKey name op' m.ops }, withSpec ("json=" ++ showErr text ++ " restore=ok op=" ++ T.showOp op') ("restore=ok op=" ++ T.showOp op))
+        | (text, none) => (m, "json=" ++ showErr text ++ " restore=fail norestore")
   | ["ML", r1, r2, r3] =>
     match m.rep r1, m.rep r2, m.rep r3, T.merge with
     | some i, some j, some k, some mg =>
